@@ -55,9 +55,12 @@ import (
 const c15nHashPrefix = "cali:" // rulesdefs.RuleHashPrefix, what felix/dataplane/linux passes
 const c15nTableName = "calico"
 
-// Known finding signature (KNOWN_FINDINGS.json): generation steers around it only when the driver
-// lists it in $VERIF_KNOWN.
-const c15nSigBlind = "c15-nft-first-apply-writes-blind-when-listall-fails"
+
+// Open known finding (KNOWN_FINDINGS.json); generation steers around it only when the driver lists
+// it in $VERIF_KNOWN.  A transaction that nft reports as failed although the kernel committed it
+// (nft killed after commit), followed by a failed ListAll in the reload, makes Felix retry from
+// its pre-transaction view: rules are appended to the chains it has just written.
+const c15nSigStaleRetry = "c15-nft-retry-after-committed-tx-writes-from-old-view-when-listall-fails"
 
 type c15nNoopRecorder struct{}
 
@@ -98,6 +101,12 @@ type c15nKernel struct {
 	listAllOK    bool
 	extDirty     bool // another program edited Felix's table after Felix last read it completely
 	reads        int  // complete reads of Felix's table (ListAll + rules) so far
+	// Complete reads by the Table object that currently holds the handle (reset when a new Table
+	// asks for a dataplane handle), and ListAll failures of the current Apply that hit a Table which
+	// had not completed any read yet: such an Apply attempt cannot write and counts as a failed
+	// attempt in Felix's retry loop.
+	instanceReads     int
+	freshListAllFails int
 	lastReadAt   time.Time
 	// A listing of map elements failed during Felix's last complete read: its view of the
 	// verdict maps is incomplete although its view of the chains is not.
@@ -126,6 +135,7 @@ func (k *c15nKernel) Sleep(d time.Duration) { k.now = k.now.Add(d) }
 
 func (k *c15nKernel) newDataplane(fam knftables.Family, name string, _ ...knftables.Option) (knftables.Interface, error) {
 	k.dpCalls = append(k.dpCalls, string(fam)+"/"+name)
+	k.instanceReads = 0
 	return k, nil
 }
 
@@ -276,6 +286,7 @@ func (k *c15nKernel) readComplete() {
 		return
 	}
 	k.reads++
+	k.instanceReads++
 	k.lastReadAt = k.now
 	k.mapViewStale = k.elemFailedThisRead
 	if k.listAllEpoch == k.editEpoch {
@@ -289,6 +300,9 @@ func (k *c15nKernel) ListAll(ctx context.Context) (map[string][]string, error) {
 	if k.listAllFaults > 0 {
 		k.listAllFaults--
 		k.injListFired++
+		if k.instanceReads == 0 {
+			k.freshListAllFails++
+		}
 		return nil, errors.New("injected: nft list failed")
 	}
 	res, err := k.fake.ListAll(ctx)
@@ -962,10 +976,6 @@ func (h *c15nH) newTable() {
 	h.root.AddOrReplaceIPSet(ipsets.IPSetMetadata{SetID: "s:abc", Type: ipsets.IPSetTypeHashIP, MaxSize: 1024}, nil)
 	h.pendingRef = map[string]bool{}
 	h.freshTable = true
-	if ev.Known(c15nSigBlind) && h.k.listAllFaults > 0 {
-		h.rec.Excluded(c15nSigBlind)
-		h.k.listAllFaults = 0
-	}
 }
 
 func (h *c15nH) mapMembers(name string) map[string][]string {
@@ -1063,12 +1073,10 @@ func (h *c15nH) apply(label string) bool {
 			}
 		}
 	}
-	if ev.Known(c15nSigBlind) && k.listAllFaults > 0 {
-		// Second trigger of the same finding: a transaction that nft reports as failed although
-		// it was committed, followed by a failed listing, makes Felix retry from its old view.
+	if ev.Known(c15nSigStaleRetry) && k.listAllFaults > 0 {
 		for _, f := range k.runFaults {
 			if f == "fail-after-commit" {
-				h.rec.Excluded(c15nSigBlind)
+				h.rec.Excluded(c15nSigStaleRetry)
 				k.listAllFaults = 0
 				break
 			}
@@ -1082,6 +1090,7 @@ func (h *c15nH) apply(label string) bool {
 		h.classes["apply-with-queued-chain-absent-from-kernel"] = true
 	}
 	k.injRunFired, k.injAfterCommit, k.natRunFailed, k.injListRulesFired, k.injListFired, k.raceFired, k.runsOK = 0, 0, 0, 0, 0, 0, 0
+	k.freshListAllFails = 0
 	logStart := len(k.log)
 	h.logStart = logStart
 	var pv any
@@ -1100,7 +1109,12 @@ func (h *c15nH) apply(label string) bool {
 	// although nft reported failure (Felix's view of the table is then wrong through no fault of
 	// its own).
 	envTrouble := extDirtyAtStart || k.raceFired > 0 || k.injListFired > 0 || k.injAfterCommit > 0
-	envFailures := k.injRunFired
+	// A ListAll failure that hits a Table which has never read the kernel makes that attempt of the
+	// retry loop fail (Felix must not write blind); one that hits a Table with a view does not.
+	envFailures := k.injRunFired + k.freshListAllFails
+	if k.freshListAllFails > 0 {
+		h.classes["first-read-failed-attempt-retried"] = true
+	}
 	if envTrouble {
 		envFailures += k.natRunFailed
 	}
@@ -1153,8 +1167,8 @@ func (h *c15nH) apply(label string) bool {
 			if envTrouble {
 				allowedNatural = 6
 			}
-			if k.injRunFired+allowedNatural < 11 {
-				h.fail("Apply gave up (%s) although only %d transaction failures were injected during the call (%d more failed on their own; another program interfered: %v)", msg, k.injRunFired, k.natRunFailed, envTrouble)
+			if k.injRunFired+k.freshListAllFails+allowedNatural < 11 {
+				h.fail("Apply gave up (%s) although only %d transaction failures and %d failures of a Table's first listing were injected during the call (%d more failed on their own; another program interfered: %v)", msg, k.injRunFired, k.freshListAllFails, k.natRunFailed, envTrouble)
 			}
 		case strings.Contains(msg, "command failed after retries"):
 			if k.injListRulesFired < 4 {
@@ -1814,9 +1828,9 @@ func TestVerifC15NftablesSync(t *testing.T) {
 				n := rapid.SampledFrom([]int{1, 1, 2, 3, 5}).Draw(t, "times")
 				switch kind {
 				case "listall":
-					if h.freshTable && ev.Known(c15nSigBlind) {
-						rec.Excluded(c15nSigBlind)
-						return
+					if rapid.IntRange(0, 5).Draw(t, "manyInARow") == 0 {
+						n = rapid.SampledFrom([]int{11, 12, 25}).Draw(t, "manyTimes")
+						h.classes["fault-list-listall-x11+"] = true
 					}
 					k.listAllFaults += n
 				case "rules":
@@ -1868,9 +1882,9 @@ func TestVerifC15NftablesSync(t *testing.T) {
 }
 
 // ---------------------------------------------------------------------------------------------
-// Deterministic scripts: TestVerifC15NftKnown* reproduce open known findings (run by the driver
-// only to confirm that a listed finding still reproduces; not part of the unit's normal run);
-// TestVerifC15NftRegression* are fixed findings kept as regression tests inside the normal run.
+// Deterministic scripts: TestVerifC15NftRegression* are fixed findings kept as regression tests inside the
+// unit's normal run; TestVerifC15NftKnown* reproduce open known findings (run by the driver only to
+// confirm that a listed finding still reproduces).
 
 func c15nScriptH(t *testing.T) *c15nH {
 	ev.Quiet()
@@ -1900,17 +1914,44 @@ func (h *c15nH) setChain(c string, rs []c15nRuleSpec) {
 	h.notePending()
 }
 
-// A new Felix whose first listing of its table fails transiently writes its desired state on top
-// of whatever an earlier Felix left: the old rules stay in front of the new ones.
-func TestVerifC15NftKnownBlindFirstApply(t *testing.T) {
+// A new Felix whose first listing of its table fails transiently must not write on top of what
+// an earlier Felix left (before 504cf00 the old "accept" stayed in front of the new "drop", the
+// stale chain stayed, and the chain was recorded as in sync): the attempt is retried, and after
+// the Apply the table is exact.
+func TestVerifC15NftRegressionBlindFirstApply(t *testing.T) {
 	h := c15nScriptH(t)
 	h.setChain("filter-cali-FORWARD", []c15nRuleSpec{{Match: 3, Action: 0}}) // earlier Felix: accept 10.0.0.0/24
+	h.setChain("filter-cali-tw-wl1", []c15nRuleSpec{{Match: 1, Action: 0}})
 	h.setInserts("filter-FORWARD", []c15nRuleSpec{{Match: 1, Action: 3, Target: "filter-cali-FORWARD"}})
+	h.setInserts("filter-INPUT", []c15nRuleSpec{{Match: 1, Action: 3, Target: "filter-cali-tw-wl1"}})
 	h.apply("A")
-	// Felix restarts; the policy is now "drop".
+	// Felix restarts; the policy is now "drop" and the workload is gone.
 	h.newTable()
 	h.model.chains["filter-cali-FORWARD"] = []c15nRuleSpec{{Match: 3, Action: 1}}
+	delete(h.model.chains, "filter-cali-tw-wl1")
+	h.model.inserts["filter-INPUT"] = nil
 	h.sendModel()
+	h.k.listAllFaults = 1
+	if !h.apply("A") || !h.classes["verified-apply"] || h.k.extDirty {
+		t.Fatalf("expected a verified Apply after one retried listing; classes=%v", h.classes)
+	}
+	if h.k.freshListAllFails != 1 || h.k.listAllFaults != 0 {
+		t.Fatalf("HARNESS-GAP: the injected first-listing failure was not consumed as expected (%d fired, %d left)", h.k.freshListAllFails, h.k.listAllFaults)
+	}
+	if _, ok := c15nChainSnap(h.k.felixTable())["filter-cali-tw-wl1"]; ok {
+		t.Fatalf("stale chain filter-cali-tw-wl1 of the earlier Felix survived")
+	}
+}
+
+// Open finding c15nSigStaleRetry (run by the driver only to confirm that it still reproduces; not
+// in the unit's run regex): the transaction that rewrites a chain is committed but nft reports
+// failure; the reload's ListAll fails; the retry appends the rules a second time.
+func TestVerifC15NftKnownRetryAfterCommittedTx(t *testing.T) {
+	h := c15nScriptH(t)
+	h.apply("A") // Felix has read the table; the chain does not exist yet
+	h.setChain("filter-cali-FORWARD", []c15nRuleSpec{{Match: 3, Action: 1}})
+	h.setInserts("filter-FORWARD", []c15nRuleSpec{{Match: 1, Action: 3, Target: "filter-cali-FORWARD"}})
+	h.k.runFaults = []string{"fail-after-commit"}
 	h.k.listAllFaults = 1
 	h.apply("A")
 }
